@@ -29,7 +29,7 @@ class C07(P.Property):
     real_stub = dict(deployment="as C09; additionally the scheme API is called directly (local branch) on the same inputs")
     assumptions = ["a setup or search that raises ends that branch without a verdict (after checking that the inputs are intact)"]
     probe_names = ["scheme_" + s for s in fe.SCHEMES] + ["local_branch", "server_branch", "multi_connection", "repeat_keyword", "absent_keyword",
-                                                          "server_index_compared", "nondefault_config"]
+                                                          "server_index_compared", "nondefault_config", "decoy_service"]
 
     def setup(self):
         world.setup_frontend()
@@ -51,7 +51,7 @@ class C07(P.Property):
         cuts = sorted(rng.sample(range(1, n), min(ncon - 1, n - 1))) if ncon > 1 else []
         knobs = dict(scheme=scheme, cfg_index=ci, db=db, cuts=cuts, gap=rng.choice([0, 0.5, 1.5]), sse2_spare=rng.choice([0, 3, 10]),
                      net=rng.choice([dict(lo=0.001, hi=0.05), dict(lo=0.001, hi=0.05, seg=3), dict(lo=0.0005, hi=0.004)]),
-                     skew=rng.choice([1.0, 1.0, 2.0]), bufsize=8192)
+                     skew=rng.choice([1.0, 1.0, 2.0]), bufsize=8192, decoy=rng.random() < 0.3)
         return {"property": "C07", "seed": seed, "knobs": knobs, "steps": steps}
 
     def execute(self, plan):
@@ -175,6 +175,11 @@ class C07(P.Property):
         probes = out["probes"]
         run.boot_server()
         await asyncio.sleep(0.01)
+        if knobs.get("decoy"):
+            # another service of the same scheme (other configuration, other database) searched first on the same server process
+            if not await self._c09._decoy(run, knobs["scheme"], knobs, probes):
+                out["inconclusive"] = "decoy service could not be set up"
+                return
         host = fe.ClientHost(run)
         db_before = copy.deepcopy(db)
         sid = None
@@ -261,7 +266,7 @@ class C07(P.Property):
 
     def simplifications(self, plan):
         k = plan["knobs"]
-        for key, val in (("skew", 1.0), ("net", dict(lo=0.01, hi=0.01)), ("cuts", []), ("gap", 0), ("cfg_index", 0)):
+        for key, val in (("skew", 1.0), ("net", dict(lo=0.01, hi=0.01)), ("cuts", []), ("gap", 0), ("cfg_index", 0), ("decoy", False)):
             if k.get(key) != val:
                 yield dict(plan, knobs=dict(k, **{key: val}))
         db = k["db"]
